@@ -35,15 +35,15 @@ import TaRs.Lemmas.MovingAverageConvergenceDivergence
 import TaRs.Lemmas.PercentagePriceOscillator
 import TaRs.Lemmas.KeltnerChannel
 import TaRs.Lemmas.ChandelierExit
-import TaRs.Lemmas.FastStochastic
+import TaRs.Lemmas.Core.FastStochastic
 import TaRs.Lemmas.SlowStochastic
 import TaRs.Lemmas.BollingerBands
 import TaRs.Lemmas.CommodityChannelIndex
-import TaRs.Lemmas.SimpleMovingAverage
-import TaRs.Lemmas.MeanAbsoluteDeviation
-import TaRs.Lemmas.StandardDeviation
-import TaRs.Lemmas.Minimum
-import TaRs.Lemmas.Maximum
+import TaRs.Lemmas.Core.SimpleMovingAverage
+import TaRs.Lemmas.Core.MeanAbsoluteDeviation
+import TaRs.Lemmas.Core.StandardDeviation
+import TaRs.Lemmas.Core.Minimum
+import TaRs.Lemmas.Core.Maximum
 
 namespace TaRs.Props.C15
 open TaRs TaRs.Gen TaRs.Rs
